@@ -21,6 +21,7 @@ import (
 	"sort"
 	"strconv"
 	"strings"
+	"time"
 
 	"github.com/apache/arrow-go/v18/arrow"
 	"github.com/apache/arrow-go/v18/arrow/array"
@@ -365,6 +366,110 @@ func famValRec(tok string) famRec {
 	panic("family: value token is not a record: " + tok)
 }
 
+// Result types that share an Arrow type ID with another method's result but differ in the
+// type's parameters (element type, precision/scale, byte width, time zone, value type).
+type famDec2 string
+type famDec4 string
+type famFsb4 []byte
+type famFsb8 []byte
+type famTsNaive time.Time
+type famTsUTC time.Time
+
+func (famDec2) VgirpcArrowResult() arrow.DataType { return &arrow.Decimal128Type{Precision: 10, Scale: 2} }
+func (famDec4) VgirpcArrowResult() arrow.DataType { return &arrow.Decimal128Type{Precision: 20, Scale: 4} }
+func (famFsb4) VgirpcArrowResult() arrow.DataType { return &arrow.FixedSizeBinaryType{ByteWidth: 4} }
+func (famFsb8) VgirpcArrowResult() arrow.DataType { return &arrow.FixedSizeBinaryType{ByteWidth: 8} }
+func (famTsNaive) VgirpcArrowResult() arrow.DataType {
+	return &arrow.TimestampType{Unit: arrow.Microsecond}
+}
+func (famTsUTC) VgirpcArrowResult() arrow.DataType {
+	return &arrow.TimestampType{Unit: arrow.Microsecond, TimeZone: "UTC"}
+}
+
+func famTokPayload(tok, prefix string) string {
+	if !strings.HasPrefix(tok, prefix) {
+		panic("family: value token " + tok + " is not a " + prefix)
+	}
+	return tok[len(prefix):]
+}
+
+// sl:[x<hex>,x<hex>]
+func famValSList(tok string) []string {
+	body := strings.TrimSuffix(famTokPayload(tok, "sl:["), "]")
+	out := []string{}
+	if body == "" {
+		return out
+	}
+	for _, p := range strings.Split(body, ",") {
+		out = append(out, UnXS(p))
+	}
+	return out
+}
+func famTokSList(l []string) string {
+	p := make([]string, len(l))
+	for i, v := range l {
+		p[i] = XS(v)
+	}
+	return "sl:[" + strings.Join(p, ",") + "]"
+}
+
+// mi:{x<hex>=<n>,…} / ms:{x<hex>=x<hex>,…}, keys ascending
+func famMapPairs(tok, prefix string) [][2]string {
+	body := strings.TrimSuffix(famTokPayload(tok, prefix), "}")
+	var out [][2]string
+	if body == "" {
+		return out
+	}
+	for _, p := range strings.Split(body, ",") {
+		kv := strings.SplitN(p, "=", 2)
+		out = append(out, [2]string{UnXS(kv[0]), kv[1]})
+	}
+	return out
+}
+func famValIMap(tok string) map[string]int64 {
+	m := map[string]int64{}
+	for _, kv := range famMapPairs(tok, "mi:{") {
+		n, err := strconv.ParseInt(kv[1], 10, 64)
+		if err != nil {
+			panic(err)
+		}
+		m[kv[0]] = n
+	}
+	return m
+}
+func famValSMap(tok string) map[string]string {
+	m := map[string]string{}
+	for _, kv := range famMapPairs(tok, "ms:{") {
+		m[kv[0]] = UnXS(kv[1])
+	}
+	return m
+}
+func famTokMap(prefix string, m map[string]string) string {
+	keys := make([]string, 0, len(m))
+	for k := range m {
+		keys = append(keys, k)
+	}
+	sort.Strings(keys)
+	p := make([]string, len(keys))
+	for i, k := range keys {
+		p[i] = XS(k) + "=" + m[k]
+	}
+	return prefix + strings.Join(p, ",") + "}"
+}
+func famValDec2(tok string) famDec2 { return famDec2(famTokPayload(tok, "d2:")) }
+func famValDec4(tok string) famDec4 { return famDec4(famTokPayload(tok, "d4:")) }
+func famValFsb4(tok string) famFsb4 { return famFsb4(MustUnX(famTokPayload(tok, "fb:"))) }
+func famValFsb8(tok string) famFsb8 { return famFsb8(MustUnX(famTokPayload(tok, "fb:"))) }
+func famTsOf(tok, prefix string) time.Time {
+	n, err := strconv.ParseInt(famTokPayload(tok, prefix), 10, 64)
+	if err != nil {
+		panic(err)
+	}
+	return time.UnixMicro(n).UTC()
+}
+func famValTsNaive(tok string) famTsNaive { return famTsNaive(famTsOf(tok, "tn:")) }
+func famValTsUTC(tok string) famTsUTC     { return famTsUTC(famTsOf(tok, "tz:")) }
+
 func famTokI64(n int64) string   { return "i:" + strconv.FormatInt(n, 10) }
 func famTokStr(s string) string  { return "s:" + XS(s) }
 func famTokF64(f float64) string { return fmt.Sprintf("f:x%016x", math.Float64bits(f)) }
@@ -416,7 +521,14 @@ func famUnary[R any](s *vgirpc.Server, name string, conv func(string) R) {
 	})
 }
 
-var famUnaryMethods = []string{"u_str", "u_i64", "u_f64", "u_bool", "u_list", "u_rec", "u_void"}
+var famUnaryMethods = []string{"u_str", "u_i64", "u_f64", "u_bool", "u_list", "u_rec", "u_void",
+	"u_slist", "u_imap", "u_smap", "u_dec2", "u_dec4", "u_fsb4", "u_fsb8", "u_tsn", "u_tsz"}
+
+// famTypeFamilies: methods whose result columns have the SAME Arrow type id and different type parameters.
+var famTypeFamilies = [][]string{
+	{"u_list", "u_slist"}, {"u_imap", "u_smap"}, {"u_dec2", "u_dec4"}, {"u_fsb4", "u_fsb8"}, {"u_tsn", "u_tsz"},
+	{"u_rec", "u_fsb4"}, // binary vs fixed_size_binary: different ids, for contrast
+}
 
 func famRegisterUnary(s *vgirpc.Server) {
 	famUnary(s, "u_str", famValStr)
@@ -425,6 +537,15 @@ func famRegisterUnary(s *vgirpc.Server) {
 	famUnary(s, "u_bool", famValBool)
 	famUnary(s, "u_list", famValList)
 	famUnary(s, "u_rec", famValRec)
+	famUnary(s, "u_slist", famValSList)
+	famUnary(s, "u_imap", famValIMap)
+	famUnary(s, "u_smap", famValSMap)
+	famUnary(s, "u_dec2", famValDec2)
+	famUnary(s, "u_dec4", famValDec4)
+	famUnary(s, "u_fsb4", famValFsb4)
+	famUnary(s, "u_fsb8", famValFsb8)
+	famUnary(s, "u_tsn", famValTsNaive)
+	famUnary(s, "u_tsz", famValTsUTC)
 	vgirpc.UnaryVoid(s, "u_void", func(_ context.Context, cc *vgirpc.CallContext, p famUnaryParams) error {
 		_, err := famRunUnary(cc, p.Script)
 		return err
@@ -548,15 +669,60 @@ func famCellToken(col arrow.Array, i int) string {
 		return famTokF64(a.Value(i))
 	case *array.Boolean:
 		return famTokBool(a.Value(i))
+	case *array.Map: // before *array.List: a Map embeds a List
+		s, e := a.ValueOffsets(i)
+		keys, okk := a.Keys().(*array.String)
+		if !okk {
+			break
+		}
+		m := map[string]string{}
+		prefix := "mi:{"
+		for j := int(s); j < int(e); j++ {
+			switch items := a.Items().(type) {
+			case *array.Int64:
+				m[keys.Value(j)] = strconv.FormatInt(items.Value(j), 10)
+			case *array.String:
+				prefix = "ms:{"
+				m[keys.Value(j)] = XS(items.Value(j))
+			default:
+				return "?map"
+			}
+		}
+		if _, isStr := a.Items().(*array.String); isStr {
+			prefix = "ms:{"
+		}
+		return famTokMap(prefix, m)
 	case *array.List:
-		if vals, ok := a.ListValues().(*array.Int64); ok {
-			s, e := a.ValueOffsets(i)
+		s, e := a.ValueOffsets(i)
+		switch vals := a.ListValues().(type) {
+		case *array.Int64:
 			l := []int64{}
 			for j := s; j < e; j++ {
 				l = append(l, vals.Value(int(j)))
 			}
 			return famTokList(l)
+		case *array.String:
+			l := []string{}
+			for j := s; j < e; j++ {
+				l = append(l, vals.Value(int(j)))
+			}
+			return famTokSList(l)
 		}
+	case *array.Decimal128:
+		dt := a.DataType().(*arrow.Decimal128Type)
+		p := "d2:"
+		if dt.Scale == 4 {
+			p = "d4:"
+		}
+		return p + a.Value(i).ToString(dt.Scale)
+	case *array.FixedSizeBinary:
+		return "fb:x" + hex.EncodeToString(a.Value(i))
+	case *array.Timestamp:
+		p := "tn:"
+		if a.DataType().(*arrow.TimestampType).TimeZone != "" {
+			p = "tz:"
+		}
+		return p + strconv.FormatInt(int64(a.Value(i)), 10)
 	case *array.Binary:
 		raw := a.Value(i)
 		// a struct result travels as an IPC stream with one row (a:int64, b:utf8)
@@ -724,9 +890,12 @@ func famServePipe(s *vgirpc.Server, input []byte) (out []byte, panicked any) {
 }
 
 // famHTTPPost posts an Arrow body to the in-process HttpServer.
-func famHTTPPost(h http.Handler, path string, body []byte) (rec *httptest.ResponseRecorder, panicked any) {
+func famHTTPPost(h http.Handler, path string, body []byte, headers ...[2]string) (rec *httptest.ResponseRecorder, panicked any) {
 	req := httptest.NewRequest(http.MethodPost, path, bytes.NewReader(body))
 	req.Header.Set("Content-Type", "application/vnd.apache.arrow.stream")
+	for _, kv := range headers {
+		req.Header[http.CanonicalHeaderKey(kv[0])] = []string{kv[1]}
+	}
 	rec = httptest.NewRecorder()
 	func() {
 		defer func() { panicked = recover() }()
